@@ -205,6 +205,7 @@ func VerifC29_internalGateInitSeq() {
 		// (the context is cancelled afterwards only so that the native goroutine does not outlive the replay:
 		// the quic package's TestMain waits for leaked goroutines)
 		ctx, cancel := context.WithCancel(context.Background())
+		defer cancel() // also when an assertion below fails in the native replay
 		var werr error
 		blocked := vfBlocks(func() { werr = g.WaitAndLock(ctx) })
 		vfAssert(blocked == !set0, "WaitAndLock with a live context on a new gate returns at once iff it was created set")
